@@ -403,6 +403,36 @@ static long pgen_L5 (PgenCb cb, void *user)
       }
     }
   }
+  /* several accumulators (1..4, the executor has four slots), 16- and 32-bit and the two-source accsadubl, with 0..6
+   * temporaries live across the accumulating instructions: every accumulator is reduced and stored through its own
+   * scratch register after the loop, so the later ones use the upper registers */
+  {
+    static const char *accn[] = { "accw", "accl", "accsadubl" };
+    static const int accsz[] = { 2, 4, 4 }, srcsz[] = { 2, 4, 1 };
+    int ai, nacc, fill;
+    for (ai = 0; ai < 3; ai++) for (nacc = 1; nacc <= 4; nacc++) for (fill = 0; fill <= 6; fill += 2) {
+      VProg p;
+      int a[4], s1, s2 = -1, d = -1, c = -1, t[8], i;
+      memset (&p, 0, sizeof (p));
+      if (fill) d = vprog_addvar (&p, VK_D, srcsz[ai]);
+      for (i = 0; i < nacc; i++) a[i] = vprog_addvar (&p, VK_A, accsz[ai]);
+      s1 = vprog_addvar (&p, VK_S, srcsz[ai]);
+      if (ai == 2) s2 = vprog_addvar (&p, VK_S, srcsz[ai]);
+      if (fill) { c = vprog_addvar (&p, VK_C, srcsz[ai]); p.v[c].cval = 3; }
+      for (i = 0; i < fill; i++) t[i] = vprog_addvar (&p, VK_T, srcsz[ai]);
+      for (i = 0; i < fill; i++) vprog_addinsn (&p, addn[srcsz[ai]], 0, 3, t[i], i ? t[i - 1] : s1, c, -1);
+      for (i = 0; i < nacc; i++) {
+        int src = fill ? t[i % fill] : s1;
+        if (ai == 2) vprog_addinsn (&p, accn[ai], 0, 3, a[i], src, s2, -1);
+        else vprog_addinsn (&p, accn[ai], 0, 2, a[i], src, -1, -1);
+      }
+      for (i = 1; i < fill; i++) vprog_addinsn (&p, xorn[srcsz[ai]], 0, 3, t[0], t[0], t[i], -1);
+      if (fill) vprog_addinsn (&p, addn[srcsz[ai]], 0, 3, d, t[0], s1, -1);
+      pg_name (&p, "L5c", count);
+      cb (&p, user);
+      count++;
+    }
+  }
   return count;
 }
 
